@@ -288,8 +288,12 @@ Fixpoint vmc_levels (min_len quantum : Z) (sr : Q) (l : list vtree) : result (li
 
 (* _make_compatible.  Leaf: `program.repetition_count = 1` stores an int (volatility dropped).  Merge of all children:
    in the "keep" case the node keeps its repetition DEFINITION (a volatile count stays volatile), otherwise the count
-   is unrolled into the waveform and becomes the int 1. *)
-Fixpoint vmake_compatible_rec_w (min_len quantum : Z) (sr : Q) (t : vtree) : result (vtree * bool) :=
+   is unrolled into the waveform and becomes the int 1.
+   [rp] selects which _make_compatible is described: [false] = the code up to round 3 (the merge emits no warning of
+   its own: only what _is_compatible reported about the children), [true] = the repaired code (round 4): before the
+   children are concatenated, `_contains_volatile_repetition(program)` (a volatile count strictly below the merged node)
+   emits a VolatileModificationWarning.  [Corr.REPAIRED] says which one /repo has. *)
+Fixpoint vmake_compatible_rec_w (rp : bool) (min_len quantum : Z) (sr : Q) (t : vtree) : result (vtree * bool) :=
   match t with
   | VNode r w m [] => bind (to_waveform (erase t)) (fun x => Ok (VNode (Fixed 1) (Some x) m [], false))
   | VNode r w m ch =>
@@ -302,24 +306,25 @@ Fixpoint vmake_compatible_rec_w (min_len quantum : Z) (sr : Q) (t : vtree) : res
                   let single_run := (duration (erase t) * sr / inject_Z (rv r))%Q in
                   let keep := q_is_int (single_run / inject_Z quantum) && Qle_bool (inject_Z min_len) single_run in
                   bind (to_waveform (Node (if keep then 1 else rv r) w m (map erase ch)))
-                       (fun x => Ok (VNode (if keep then r else Fixed 1) (Some x) m [], wl))
+                       (fun x => Ok (VNode (if keep then r else Fixed 1) (Some x) m [],
+                                     wl || (rp && existsb any_volatile ch)))
               else
                 bind ((fix go (l : list vtree) (ls : list (comp_level * bool)) : result (list vtree * bool) :=
                          match l, ls with
                          | c :: rest, lw :: lr =>
                              bind (if comp_level_eqb (fst lw) ActionRequired
-                                   then vmake_compatible_rec_w min_len quantum sr c else Ok (c, false))
+                                   then vmake_compatible_rec_w rp min_len quantum sr c else Ok (c, false))
                                   (fun cw => bind (go rest lr) (fun rw => Ok (fst cw :: fst rw, snd cw || snd rw)))
                          | _, _ => Ok ([], false)
                          end) ch lws)
                      (fun cw => Ok (VNode r w m (fst cw), wl || snd cw)))
   end.
 
-Definition vmake_compatible_w (min_len quantum : Z) (sr : Q) (t : vtree) : result (vtree * bool) :=
+Definition vmake_compatible_w (rp : bool) (min_len quantum : Z) (sr : Q) (t : vtree) : result (vtree * bool) :=
   bind (vis_compatible_w min_len quantum sr t)
        (fun lw => match fst lw with
                   | IncompFraction | IncompTooShort | IncompQuantum => Err EValue
-                  | ActionRequired => bind (vmake_compatible_rec_w min_len quantum sr t)
+                  | ActionRequired => bind (vmake_compatible_rec_w rp min_len quantum sr t)
                                            (fun tw => Ok (fst tw, snd lw || snd tw))
                   | Compatible => Ok (t, snd lw)
                   end).
@@ -362,8 +367,8 @@ Fixpoint vol_count (t : vtree) : nat :=
   match t with VNode r _ _ ch => ((if is_vol r then 1 else 0) + list_sum (map vol_count ch))%nat end.
 
 (* executable guard of [Proofs_vol_mc.vmake_compatible_faithful]: make_compatible lost a volatile count *)
-Definition vmc_loses_count (min_len quantum : Z) (sr : Q) (t : vtree) : bool :=
-  match vmake_compatible_w min_len quantum sr t with
+Definition vmc_loses_count (rp : bool) (min_len quantum : Z) (sr : Q) (t : vtree) : bool :=
+  match vmake_compatible_w rp min_len quantum sr t with
   | Ok (t', _) => negb (vol_count t' =? vol_count t)%nat
   | Err _ => false
   end.
